@@ -1,6 +1,439 @@
 /-
 Helper lemmas for C12 (the publish transition system).
+
+`Inv base s` is the inductive invariant of the repaired protocol (`Proto.fixed`): it holds in the
+initial state of fresh publishers (`inv_init`), is preserved by every enabled step (`inv_step`) and
+hence by every schedule (`inv_run`, `inv_reach`).  `VInv` is the invariant of the trace validator.
 -/
 import AkdModel.Conc
 namespace Akd.Conc
+
+
+/-- phases in which the publish mutex is held -/
+def Crit : Pc → Prop
+  | .readEpoch | .readVersions | .inserting _ | .commitWrite => True
+  | _ => False
+
+/-- phases after the epoch read, still inside the mutex -/
+def Past : Pc → Prop
+  | .readVersions | .inserting _ | .commitWrite => True
+  | _ => False
+
+/-- phases reached only by effective batches -/
+def Writing : Pc → Prop
+  | .inserting _ | .commitWrite => True
+  | _ => False
+
+@[simp] theorem crit_start : Crit .start = False := rfl
+@[simp] theorem crit_readEpoch : Crit .readEpoch = True := rfl
+@[simp] theorem crit_readVersions : Crit .readVersions = True := rfl
+@[simp] theorem crit_inserting (k) : Crit (.inserting k) = True := rfl
+@[simp] theorem crit_commitWrite : Crit .commitWrite = True := rfl
+@[simp] theorem crit_readRoot : Crit .readRoot = False := rfl
+@[simp] theorem crit_done (e) : Crit (.done e) = False := rfl
+@[simp] theorem crit_refused : Crit .refused = False := rfl
+@[simp] theorem past_start : Past .start = False := rfl
+@[simp] theorem past_readEpoch : Past .readEpoch = False := rfl
+@[simp] theorem past_readVersions : Past .readVersions = True := rfl
+@[simp] theorem past_inserting (k) : Past (.inserting k) = True := rfl
+@[simp] theorem past_commitWrite : Past .commitWrite = True := rfl
+@[simp] theorem past_readRoot : Past .readRoot = False := rfl
+@[simp] theorem past_done (e) : Past (.done e) = False := rfl
+@[simp] theorem past_refused : Past .refused = False := rfl
+@[simp] theorem writing_start : Writing .start = False := rfl
+@[simp] theorem writing_readEpoch : Writing .readEpoch = False := rfl
+@[simp] theorem writing_readVersions : Writing .readVersions = False := rfl
+@[simp] theorem writing_inserting (k) : Writing (.inserting k) = True := rfl
+@[simp] theorem writing_commitWrite : Writing .commitWrite = True := rfl
+@[simp] theorem writing_readRoot : Writing .readRoot = False := rfl
+@[simp] theorem writing_done (e) : Writing (.done e) = False := rfl
+@[simp] theorem writing_refused : Writing .refused = False := rfl
+
+/-- the invariant of the repaired protocol -/
+structure Inv (base : Nat) (s : Sys) : Prop where
+  hCons : ∀ k (h : k < s.hist.length), (s.hist[k]).2 = base + k + 1
+  hEpoch : s.epoch = base + s.hist.length
+  hCritLock : ∀ (i : Nat) (p : Pub), s.pubs[i]? = some p → Crit p.pc → s.lock = some i
+  hLockCrit : ∀ h : Nat, s.lock = some h → ∃ p : Pub, s.pubs[h]? = some p ∧ Crit p.pc
+  hSeen : ∀ (i : Nat) (p : Pub), s.pubs[i]? = some p → Past p.pc → p.seen = s.epoch
+  hWriting : ∀ (i : Nat) (p : Pub), s.pubs[i]? = some p → Writing p.pc → p.changes = true
+  hHistDone : ∀ (i e : Nat), (i, e) ∈ s.hist → ∃ p : Pub, s.pubs[i]? = some p ∧ p.pc = .done e ∧ p.changes = true
+  hDoneHist : ∀ (i : Nat) (p : Pub) (e : Nat), s.pubs[i]? = some p → p.pc = .done e → p.changes = true → (i, e) ∈ s.hist
+  hNoop : ∀ (i : Nat) (p : Pub) (e : Nat), s.pubs[i]? = some p → p.pc = .done e → p.changes = false → base ≤ e ∧ e ≤ s.epoch
+  hNoBad : ∀ (i : Nat) (p : Pub), s.pubs[i]? = some p → p.pc ≠ .refused ∧ p.pc ≠ .readRoot
+
+theorem getElem?_setPub {s : Sys} {i : Nat} {p : Pub} (p' : Pub) (h : s.pubs[i]? = some p) (j : Nat) (q : Pub) :
+    (setPub s i p').pubs[j]? = some q ↔ (j = i ∧ q = p') ∨ (j ≠ i ∧ s.pubs[j]? = some q) := by
+  have hi : i < s.pubs.length := by
+    rcases List.getElem?_eq_some_iff.1 h with ⟨hi, _⟩; exact hi
+  simp only [setPub, List.getElem?_set]
+  by_cases hji : i = j
+  · subst hji; simp [hi, eq_comm]
+  · have : j ≠ i := fun h => hji h.symm
+    simp [hji, this]
+
+theorem inv_init (base : Nat) (pubs : List Pub) (hf : ∀ p ∈ pubs, p.pc = .start) : Inv base (init base pubs) := by
+  have hs : ∀ (i : Nat) (p : Pub), pubs[i]? = some p → p.pc = .start := fun i p h => hf p (List.mem_of_getElem? h)
+  constructor <;> simp [init]
+  · intro i p h; simp [hs i p h]
+  · intro i p h; simp [hs i p h]
+  · intro i p h; simp [hs i p h]
+  · intro i p e h; simp [hs i p h]
+  · intro i p e h; simp [hs i p h]
+  · intro i p h; simp [hs i p h]
+
+
+@[simp] theorem setPub_hist (s : Sys) (i : Nat) (p : Pub) : (setPub s i p).hist = s.hist := rfl
+@[simp] theorem setPub_epoch (s : Sys) (i : Nat) (p : Pub) : (setPub s i p).epoch = s.epoch := rfl
+@[simp] theorem setPub_lock (s : Sys) (i : Nat) (p : Pub) : (setPub s i p).lock = s.lock := rfl
+
+theorem crit_not_done {pc : Pc} (h : Crit pc) (e : Nat) : pc ≠ .done e := by
+  intro h'; subst h'; simp at h
+
+theorem crit_noBad {pc : Pc} (h : Crit pc) : pc ≠ .refused ∧ pc ≠ .readRoot := by
+  constructor <;> (intro h'; subst h'; simp at h)
+
+/-- a step inside the critical section that touches only the publisher's own record -/
+theorem inv_local {base : Nat} {s : Sys} {i : Nat} {p : Pub} (p' : Pub) (hI : Inv base s)
+    (hp : s.pubs[i]? = some p) (hc : Crit p.pc) (hc' : Crit p'.pc)
+    (hs' : Past p'.pc → p'.seen = s.epoch) (hw' : Writing p'.pc → p'.changes = true) :
+    Inv base (setPub s i p') := by
+  have hlock := hI.hCritLock i p hp hc
+  refine ⟨hI.hCons, hI.hEpoch, ?_, ?_, ?_, ?_, ?_, ?_, ?_, ?_⟩
+  · intro j q hq hcq
+    rcases (getElem?_setPub p' hp j q).1 hq with ⟨rfl, rfl⟩ | ⟨_, hq'⟩
+    · exact hlock
+    · exact hI.hCritLock j q hq' hcq
+  · intro h hh
+    have : h = i := by simp [hlock] at hh; exact hh.symm
+    subst this
+    exact ⟨p', (getElem?_setPub p' hp h p').2 (Or.inl ⟨rfl, rfl⟩), hc'⟩
+  · intro j q hq hcq
+    rcases (getElem?_setPub p' hp j q).1 hq with ⟨rfl, rfl⟩ | ⟨_, hq'⟩
+    · exact hs' hcq
+    · exact hI.hSeen j q hq' hcq
+  · intro j q hq hcq
+    rcases (getElem?_setPub p' hp j q).1 hq with ⟨rfl, rfl⟩ | ⟨_, hq'⟩
+    · exact hw' hcq
+    · exact hI.hWriting j q hq' hcq
+  · intro j e hje
+    obtain ⟨q, hq, hqd, hqc⟩ := hI.hHistDone j e hje
+    have hne : j ≠ i := by
+      rintro rfl
+      rw [hp] at hq; cases hq
+      exact crit_not_done hc e hqd
+    exact ⟨q, (getElem?_setPub p' hp j q).2 (Or.inr ⟨hne, hq⟩), hqd, hqc⟩
+  · intro j q e hq hqd hqc
+    rcases (getElem?_setPub p' hp j q).1 hq with ⟨rfl, rfl⟩ | ⟨_, hq'⟩
+    · exact absurd hqd (crit_not_done hc' e)
+    · exact hI.hDoneHist j q e hq' hqd hqc
+  · intro j q e hq hqd hqc
+    rcases (getElem?_setPub p' hp j q).1 hq with ⟨rfl, rfl⟩ | ⟨_, hq'⟩
+    · exact absurd hqd (crit_not_done hc' e)
+    · exact hI.hNoop j q e hq' hqd hqc
+  · intro j q hq
+    rcases (getElem?_setPub p' hp j q).1 hq with ⟨rfl, rfl⟩ | ⟨_, hq'⟩
+    · exact crit_noBad hc'
+    · exact hI.hNoBad j q hq'
+
+
+theorem past_crit {pc : Pc} (h : Past pc) : Crit pc := by
+  cases pc <;> simp_all
+
+theorem writing_past {pc : Pc} (h : Writing pc) : Past pc := by
+  cases pc <;> simp_all
+
+/-- taking the mutex -/
+theorem inv_acquire {base : Nat} {s : Sys} {i : Nat} {p : Pub} (p' : Pub) (hI : Inv base s)
+    (hp : s.pubs[i]? = some p) (hc : p.pc = .start) (hl : s.lock = none) (hc' : p'.pc = .readEpoch) :
+    Inv base (setPub { s with lock := some i } i p') := by
+  have hp0 : ({ s with lock := some i } : Sys).pubs[i]? = some p := hp
+  refine ⟨hI.hCons, hI.hEpoch, ?_, ?_, ?_, ?_, ?_, ?_, ?_, ?_⟩
+  · intro j q hq hcq
+    rcases (getElem?_setPub p' hp0 j q).1 hq with ⟨rfl, rfl⟩ | ⟨_, hq'⟩
+    · rfl
+    · have := hI.hCritLock j q hq' hcq
+      rw [hl] at this; cases this
+  · intro h hh
+    have : h = i := by simp at hh; exact hh.symm
+    subst this
+    exact ⟨p', (getElem?_setPub p' hp0 h p').2 (Or.inl ⟨rfl, rfl⟩), by simp [hc']⟩
+  · intro j q hq hcq
+    rcases (getElem?_setPub p' hp0 j q).1 hq with ⟨rfl, rfl⟩ | ⟨_, hq'⟩
+    · simp [hc'] at hcq
+    · exact hI.hSeen j q hq' hcq
+  · intro j q hq hcq
+    rcases (getElem?_setPub p' hp0 j q).1 hq with ⟨rfl, rfl⟩ | ⟨_, hq'⟩
+    · simp [hc'] at hcq
+    · exact hI.hWriting j q hq' hcq
+  · intro j e hje
+    obtain ⟨q, hq, hqd, hqc⟩ := hI.hHistDone j e hje
+    have hne : j ≠ i := by
+      rintro rfl
+      rw [hp] at hq; cases hq
+      rw [hc] at hqd; cases hqd
+    exact ⟨q, (getElem?_setPub p' hp0 j q).2 (Or.inr ⟨hne, hq⟩), hqd, hqc⟩
+  · intro j q e hq hqd hqc
+    rcases (getElem?_setPub p' hp0 j q).1 hq with ⟨rfl, rfl⟩ | ⟨_, hq'⟩
+    · rw [hc'] at hqd; cases hqd
+    · exact hI.hDoneHist j q e hq' hqd hqc
+  · intro j q e hq hqd hqc
+    rcases (getElem?_setPub p' hp0 j q).1 hq with ⟨rfl, rfl⟩ | ⟨_, hq'⟩
+    · rw [hc'] at hqd; cases hqd
+    · exact hI.hNoop j q e hq' hqd hqc
+  · intro j q hq
+    rcases (getElem?_setPub p' hp0 j q).1 hq with ⟨rfl, rfl⟩ | ⟨_, hq'⟩
+    · simp [hc']
+    · exact hI.hNoBad j q hq'
+
+/-- a no-op batch returns and releases the mutex -/
+theorem inv_release {base : Nat} {s : Sys} {i : Nat} {p : Pub} (p' : Pub) (hI : Inv base s)
+    (hp : s.pubs[i]? = some p) (hc : p.pc = .readVersions) (hc' : p'.pc = .done p.seen)
+    (hch : p'.changes = false) :
+    Inv base (setPub { s with lock := none } i p') := by
+  have hp0 : ({ s with lock := none } : Sys).pubs[i]? = some p := hp
+  have hlock := hI.hCritLock i p hp (by simp [hc])
+  have hseen := hI.hSeen i p hp (by simp [hc])
+  have hother : ∀ (j : Nat) (q : Pub), j ≠ i → s.pubs[j]? = some q → ¬ Crit q.pc := by
+    intro j q hne hq hcq
+    have := hI.hCritLock j q hq hcq
+    rw [hlock] at this; cases this; exact hne rfl
+  refine ⟨hI.hCons, hI.hEpoch, ?_, ?_, ?_, ?_, ?_, ?_, ?_, ?_⟩
+  · intro j q hq hcq
+    rcases (getElem?_setPub p' hp0 j q).1 hq with ⟨rfl, rfl⟩ | ⟨hne, hq'⟩
+    · simp [hc'] at hcq
+    · exact absurd hcq (hother j q hne hq')
+  · intro h hh
+    simp at hh
+  · intro j q hq hcq
+    rcases (getElem?_setPub p' hp0 j q).1 hq with ⟨rfl, rfl⟩ | ⟨_, hq'⟩
+    · simp [hc'] at hcq
+    · exact hI.hSeen j q hq' hcq
+  · intro j q hq hcq
+    rcases (getElem?_setPub p' hp0 j q).1 hq with ⟨rfl, rfl⟩ | ⟨_, hq'⟩
+    · simp [hc'] at hcq
+    · exact hI.hWriting j q hq' hcq
+  · intro j e hje
+    obtain ⟨q, hq, hqd, hqc⟩ := hI.hHistDone j e hje
+    have hne : j ≠ i := by
+      rintro rfl
+      rw [hp] at hq; cases hq
+      rw [hc] at hqd; cases hqd
+    exact ⟨q, (getElem?_setPub p' hp0 j q).2 (Or.inr ⟨hne, hq⟩), hqd, hqc⟩
+  · intro j q e hq hqd hqc
+    rcases (getElem?_setPub p' hp0 j q).1 hq with ⟨rfl, rfl⟩ | ⟨_, hq'⟩
+    · rw [hch] at hqc; cases hqc
+    · exact hI.hDoneHist j q e hq' hqd hqc
+  · intro j q e hq hqd hqc
+    rcases (getElem?_setPub p' hp0 j q).1 hq with ⟨rfl, rfl⟩ | ⟨_, hq'⟩
+    · rw [hc'] at hqd; cases hqd
+      have := hI.hEpoch
+      show base ≤ p.seen ∧ p.seen ≤ s.epoch
+      omega
+    · exact hI.hNoop j q e hq' hqd hqc
+  · intro j q hq
+    rcases (getElem?_setPub p' hp0 j q).1 hq with ⟨rfl, rfl⟩ | ⟨_, hq'⟩
+    · simp [hc']
+    · exact hI.hNoBad j q hq'
+
+/-- the commit write -/
+theorem inv_commit {base : Nat} {s : Sys} {i : Nat} {p : Pub} (p' : Pub) (hI : Inv base s)
+    (hp : s.pubs[i]? = some p) (hc : p.pc = .commitWrite) (hc' : p'.pc = .done (p.seen + 1))
+    (hch : p'.changes = p.changes) :
+    Inv base (setPub { s with epoch := p.seen + 1, hist := s.hist ++ [(i, p.seen + 1)], lock := none } i p') := by
+  have hp0 : ({ s with epoch := p.seen + 1, hist := s.hist ++ [(i, p.seen + 1)], lock := none } : Sys).pubs[i]?
+      = some p := hp
+  have hlock := hI.hCritLock i p hp (by simp [hc])
+  have hseen := hI.hSeen i p hp (by simp [hc])
+  have hchg := hI.hWriting i p hp (by simp [hc])
+  have hep := hI.hEpoch
+  have hother : ∀ (j : Nat) (q : Pub), j ≠ i → s.pubs[j]? = some q → ¬ Crit q.pc := by
+    intro j q hne hq hcq
+    have := hI.hCritLock j q hq hcq
+    rw [hlock] at this; cases this; exact hne rfl
+  refine ⟨?_, ?_, ?_, ?_, ?_, ?_, ?_, ?_, ?_, ?_⟩
+  · intro k hk
+    simp only [setPub_hist, List.length_append, List.length_cons, List.length_nil] at hk ⊢
+    by_cases hk' : k < s.hist.length
+    · rw [List.getElem_append_left hk']; exact hI.hCons k hk'
+    · have : k = s.hist.length := by omega
+      subst this
+      simp
+      omega
+  · simp; omega
+  · intro j q hq hcq
+    rcases (getElem?_setPub p' hp0 j q).1 hq with ⟨rfl, rfl⟩ | ⟨hne, hq'⟩
+    · simp [hc'] at hcq
+    · exact absurd hcq (hother j q hne hq')
+  · intro h hh
+    simp at hh
+  · intro j q hq hcq
+    rcases (getElem?_setPub p' hp0 j q).1 hq with ⟨rfl, rfl⟩ | ⟨hne, hq'⟩
+    · simp [hc'] at hcq
+    · exact absurd (past_crit hcq) (hother j q hne hq')
+  · intro j q hq hcq
+    rcases (getElem?_setPub p' hp0 j q).1 hq with ⟨rfl, rfl⟩ | ⟨_, hq'⟩
+    · simp [hc'] at hcq
+    · exact hI.hWriting j q hq' hcq
+  · intro j e hje
+    simp only [setPub_hist, List.mem_append, List.mem_singleton, Prod.mk.injEq] at hje
+    rcases hje with hje | ⟨rfl, rfl⟩
+    · obtain ⟨q, hq, hqd, hqc⟩ := hI.hHistDone j e hje
+      have hne : j ≠ i := by
+        rintro rfl
+        rw [hp] at hq; cases hq
+        rw [hc] at hqd; cases hqd
+      exact ⟨q, (getElem?_setPub p' hp0 j q).2 (Or.inr ⟨hne, hq⟩), hqd, hqc⟩
+    · exact ⟨p', (getElem?_setPub p' hp0 j p').2 (Or.inl ⟨rfl, rfl⟩), hc', by rw [hch, hchg]⟩
+  · intro j q e hq hqd hqc
+    simp only [setPub_hist, List.mem_append, List.mem_singleton, Prod.mk.injEq]
+    rcases (getElem?_setPub p' hp0 j q).1 hq with ⟨rfl, rfl⟩ | ⟨_, hq'⟩
+    · rw [hc'] at hqd; cases hqd
+      exact Or.inr ⟨rfl, rfl⟩
+    · exact Or.inl (hI.hDoneHist j q e hq' hqd hqc)
+  · intro j q e hq hqd hqc
+    rcases (getElem?_setPub p' hp0 j q).1 hq with ⟨rfl, rfl⟩ | ⟨_, hq'⟩
+    · rw [hch, hchg] at hqc; cases hqc
+    · have := hI.hNoop j q e hq' hqd hqc
+      show base ≤ e ∧ e ≤ p.seen + 1
+      omega
+  · intro j q hq
+    rcases (getElem?_setPub p' hp0 j q).1 hq with ⟨rfl, rfl⟩ | ⟨_, hq'⟩
+    · simp [hc']
+    · exact hI.hNoBad j q hq'
+
+
+/-- every step of the repaired protocol preserves the invariant -/
+theorem inv_step {base : Nat} {s s' : Sys} {i : Nat} (hI : Inv base s) (h : step .fixed s i = some s') :
+    Inv base s' := by
+  unfold step at h
+  cases hp : s.pubs[i]? with
+  | none => simp [hp] at h
+  | some p =>
+    simp only [hp] at h
+    cases hpc : p.pc with
+    | start =>
+      simp only [hpc] at h
+      split at h
+      · cases h
+      · rename_i hl
+        cases h
+        exact inv_acquire _ hI hp hpc (by simpa using hl) rfl
+    | readEpoch =>
+      simp only [hpc] at h
+      cases h
+      exact inv_local _ hI hp (by simp [hpc]) (by simp) (fun _ => rfl) (by simp)
+    | readVersions =>
+      simp only [hpc] at h
+      split at h
+      · rename_i hch
+        cases h
+        exact inv_local _ hI hp (by simp [hpc]) (by simp) (fun _ => hI.hSeen i p hp (by simp [hpc]))
+          (fun _ => hch)
+      · rename_i hch
+        cases h
+        exact inv_release _ hI hp hpc rfl (by simpa using hch)
+    | inserting k =>
+      simp only [hpc] at h
+      have hs := hI.hSeen i p hp (by simp [hpc])
+      have hw := hI.hWriting i p hp (by simp [hpc])
+      cases k with
+      | zero =>
+        cases h
+        exact inv_local _ hI hp (by simp [hpc]) (by simp) (fun _ => hs) (fun _ => hw)
+      | succ k =>
+        cases h
+        exact inv_local _ hI hp (by simp [hpc]) (by simp) (fun _ => hs) (fun _ => hw)
+    | commitWrite =>
+      simp only [hpc] at h
+      cases h
+      exact inv_commit _ hI hp hpc rfl rfl
+    | readRoot => simp [hpc] at h
+    | done e => simp [hpc] at h
+    | refused => simp [hpc] at h
+
+theorem inv_run {base : Nat} (sched : List Nat) {s : Sys} (hI : Inv base s) : Inv base (run .fixed s sched) := by
+  induction sched generalizing s with
+  | nil => exact hI
+  | cons i rest ih =>
+    simp only [run, List.foldl_cons]
+    cases h : step .fixed s i with
+    | none => exact ih hI
+    | some s' => exact ih (inv_step hI h)
+
+theorem inv_reach (base : Nat) (pubs : List Pub) (hf : ∀ p ∈ pubs, p.pc = .start) (sched : List Nat) :
+    Inv base (run .fixed (init base pubs) sched) :=
+  inv_run sched (inv_init base pubs hf)
+
+
+/-! ### the trace validator -/
+
+
+/-- invariant of the trace validator -/
+def VInv (base : Nat) (v : VState) : Prop :=
+  (∀ k (hk : k < v.outcomes.length), (v.outcomes[k]).2 = base + k + 1) ∧ v.epoch = base + v.outcomes.length
+
+theorem vinv_commit {base : Nat} {v : VState} (t k : Nat) (hv : VInv base v) (hk : k = v.epoch + 1) :
+    VInv base { epoch := k, holder := none, outcomes := v.outcomes ++ [(t, k)] } := by
+  obtain ⟨h1, h2⟩ := hv
+  constructor
+  · intro j hj
+    simp only [List.length_append, List.length_cons, List.length_nil] at hj
+    by_cases hj' : j < v.outcomes.length
+    · simp only [List.getElem_append_left hj']; exact h1 j hj'
+    · have : j = v.outcomes.length := by omega
+      subst this
+      simp
+      omega
+  · simp; omega
+
+theorem vinv_step {base : Nat} {v v' : VState} (e : Nat × Ev) (hv : VInv base v)
+    (h : validateStep v e = .ok v') : VInv base v' := by
+  obtain ⟨t, ev⟩ := e
+  unfold validateStep at h
+  simp only at h
+  cases hh : v.holder with
+  | none =>
+    simp only [hh] at h
+    cases ev with
+    | getAzks k =>
+      simp only at h
+      split at h
+      · cases h; exact hv
+      · cases h
+    | read => cases h; exact hv
+    | commit k =>
+      simp only at h
+      split at h
+      · rename_i hk; cases h; exact vinv_commit t k hv hk
+      · cases h
+  | some ho =>
+    simp only [hh] at h
+    split at h
+    · cases h
+    · cases ev with
+      | getAzks k =>
+        simp only at h
+        split at h
+        · cases h; exact hv
+        · cases h
+      | read => cases h; exact hv
+      | commit k =>
+        simp only at h
+        split at h
+        · rename_i hk; cases h; exact vinv_commit t k hv hk
+        · cases h
+
+theorem vinv_foldlM {base : Nat} (tr : List (Nat × Ev)) {v0 v : VState} (hv : VInv base v0)
+    (h : tr.foldlM validateStep v0 = .ok v) : VInv base v := by
+  induction tr generalizing v0 with
+  | nil => simp [List.foldlM, pure, Except.pure] at h; cases h; exact hv
+  | cons e rest ih =>
+    simp only [List.foldlM_cons, bind, Except.bind] at h
+    cases hs : validateStep v0 e with
+    | error m => simp [hs] at h
+    | ok v1 =>
+      simp only [hs] at h
+      exact ih (vinv_step e hv hs) h
+
 end Akd.Conc
